@@ -338,8 +338,8 @@ func (s *sys) apply(letter string) {
 }
 
 // probeLock asks the kernel directly: with an open file description of its own on the
-// lock file, an exclusive flock must be obtainable iff no handle is open, a shared one
-// iff no read-write handle is open (a failed or closed Open must not leave a lock behind).
+// lock file, an exclusive flock must be obtainable when no handle is open, a shared one
+// when no read-write handle is open (a failed or closed Open must not leave a lock behind).
 func (s *sys) probeLock(letter string) {
 	f, err := os.Open(filepath.Join(s.w.Dir, ".lock"))
 	if err != nil {
@@ -355,11 +355,13 @@ func (s *sys) probeLock(letter string) {
 	}
 	wantSh := !s.anyOpen(1)
 	wantEx := !s.anyOpen(1) && !s.anyOpen(2)
-	if got := try(syscall.LOCK_SH); got != wantSh {
-		s.failf("after %s a shared lock on the directory can be taken = %v, want %v (slots %v)", letter, got, wantSh, s.mode)
+	// only the "released" direction is asserted here (that a lock is held while a handle is
+	// open is what the open matrix itself checks, whatever locking primitive is used)
+	if wantSh && !try(syscall.LOCK_SH) {
+		s.failf("after %s a shared lock on the directory cannot be taken although no read-write handle is open (slots %v): a lock was left behind", letter, s.mode)
 	}
-	if got := try(syscall.LOCK_EX); got != wantEx {
-		s.failf("after %s an exclusive lock on the directory can be taken = %v, want %v (slots %v)", letter, got, wantEx, s.mode)
+	if wantEx && !try(syscall.LOCK_EX) {
+		s.failf("after %s an exclusive lock on the directory cannot be taken although no handle is open (slots %v): a lock was left behind", letter, s.mode)
 	}
 }
 
